@@ -30,6 +30,8 @@ CHECKS = {
          'sampled draws (boundary-biased); send raster tolerance 0.12 s; loop-back judged while the id is within the 200-id memory', '6 (C15)'),
  'C13': ('fault_enumeration', 'stream faults placed inside real requests of a simulated healthy session: truncation followed by EOF at every byte offset of the framing regions and of a sampled body window, wrong lengths, malformed chunking, 1-byte fragmentation, bad codings, structure-aware XML mutations and DOCTYPE/entity payloads, sent by a scripted raw client to provider and consumer endpoints; termination (EOF-spin counter), escape, response well-formedness, XXE canaries, unchanged state',
          'truncation offsets complete inside the sampled window only; a silent open connection may keep a handler waiting (not decided); HTTP/0.9 request lines are answered by the standard library', '6 (C13)'),
+ 'C17': ('exploration', 'randomised framing knobs (chunk sizes, codings per party, recv fragmentation) per simulated provider+consumer session plus scripted peers with sloppy Accept-Encoding headers and corrupt / unsupported codings; every HTTP message on the simulated wire is re-parsed by a strict RFC 7230 parser, decoded and compared with the application-layer bytes; Content-Encoding checked against the governing Accept-Encoding',
+         'the stream part of the property is decided; parsing arbitrary Accept-Encoding strings in isolation is covered only through the header variants scripted peers send; aiohttp session is a stub', '6 (C17)'),
 }
 TECH = 'deterministic simulation with fault injection (seeded scheduler + virtual clock + simulated network, fork per run, ddmin replay)'
 
